@@ -201,6 +201,69 @@ theorem C08_witness_cycle (H : Bytes → Bytes) (hlen : ∀ x, (H x).length = 16
   have hp : HashLits.placeholder.length = 1 := by decide
   omega
 
+/-! ### mapping keys are serialised without any memo -/
+
+/-- The byte representation of a mapping key is a function of the key ALONE: `bytes_repr_mapping_contents` emits
+    `b"".join(bytes_repr(key))`, which for the scalar keys of the model is the literal `encScalar key`; evaluating it
+    leaves every `Cache` state untouched and does not depend on it. -/
+theorem C08_key_repr_memo_free (H : Bytes → Bytes) (k : Scalar) (m : Memo) :
+    evalMemo H (lit (encScalar k)) m = (encScalar k, m) := rfl
+
+/-- More generally the id-keyed memo only concerns compound nodes WITH an identity: a value all of whose nodes are
+    untracked (`id = 0`: scalars, keys, arrays, inline types, …) gets its alone-hash from `hash_single` whatever the memo
+    contains — no `UniqueIds`, no soundness assumption — and leaves the memo as it was. -/
+theorem C08_untracked_memo_free (H : Bytes → Bytes) (v : PyVal) (p : Pre) (m : Memo)
+    (hp : pre v = .ok p) (hu : Pre.untracked p = true) :
+    hashWith H v m = .ok (evalPure H p, m) ∧ hashAlone H v = .ok (evalPure H p) := by
+  refine ⟨?_, by simp [hashAlone, hp, Except.map]⟩
+  simp only [hashWith, hp, Except.map, evalMemo_untracked H p m hu]
+
+/-! #### documentation variant: a key memo keyed by the key's VALUE -/
+
+/-- Python's `==` on the scalars that can be dict keys, as far as the witness needs it: `1 == True`, `0 == False` -/
+def pyEqScalar : Scalar → Scalar → Bool
+  | .int a, .int b => a == b
+  | .int a, .bool b => a == boolInt b
+  | .bool a, .int b => boolInt a == b
+  | .bool a, .bool b => a == b
+  | a, b => a == b
+
+/-- `Cache._key_reprs` of the variant: key value → bytes of the first key that compared equal -/
+abbrev KeyMemo := List (Scalar × Bytes)
+
+def keyReprValueMemo (km : KeyMemo) (k : Scalar) : Bytes × KeyMemo :=
+  match km.find? (fun e => pyEqScalar e.1 k) with
+  | some e => (e.2, km)
+  | none => (encScalar k, (k, encScalar k) :: km)
+
+/-- mapping contents (given the digests of the values) with the value-keyed key memo -/
+def mapBytesValueMemo : KeyMemo → List (Scalar × Bytes) → Bytes × KeyMemo
+  | km, [] => ([], km)
+  | km, (k, d) :: rest =>
+    let r := keyReprValueMemo km k
+    let rs := mapBytesValueMemo r.2 rest
+    (r.1 ++ HashLits.mapEq ++ d ++ HashLits.mapSep ++ rs.1, rs.2)
+
+/-- DOCUMENTATION WITNESS: with a key memo keyed by VALUE, the contents of `{True: v}` serialised after those of `{1: v}`
+    with the same `Cache` are the bytes of `{1: v}` — not what `{True: v}` gives alone (context-freeness broken), and
+    indistinguishable from a second `{1: v}` (discrimination broken: `[{1: v}, {True: v}]` hashes like `[{1: v}, {1: v}]` for
+    every digest function); started with the other mapping, the result is the other way round (order dependent).  The live
+    serialiser and the model use no such memo (`C08_key_repr_memo_free`); the harness generates such siblings. -/
+theorem C08_witness_value_keyed_key_memo (d : Bytes) :
+    let first := mapBytesValueMemo [] [(.int 1, d)]
+    (mapBytesValueMemo first.2 [(.bool true, d)]).1 = mapBytes [(.int 1, d)]
+    ∧ (mapBytesValueMemo [] [(.bool true, d)]).1 = mapBytes [(.bool true, d)]
+    ∧ mapBytes [(.bool true, d)] ≠ mapBytes [(.int 1, d)]
+    ∧ (mapBytesValueMemo (mapBytesValueMemo [] [(.bool true, d)]).2 [(.int 1, d)]).1 = mapBytes [(.bool true, d)] := by
+  refine ⟨rfl, rfl, ?_, rfl⟩
+  intro h
+  have := congrArg (fun l => l.head?) h
+  simp only [mapBytes, List.append_assoc] at this
+  have e1 : (encScalar (.bool true) ++ (HashLits.mapEq ++ (d ++ (HashLits.mapSep ++ [])))).head? = some 84 := rfl
+  have e2 : (encScalar (.int 1) ++ (HashLits.mapEq ++ (d ++ (HashLits.mapSep ++ [])))).head? = some 105 := rfl
+  rw [e1, e2] at this
+  cases this
+
 /-! ### documentation: a layout-dependent array serialiser -/
 
 /-- An array as it lies in memory: `logical` = its elements in index (row-major) order — what the model's `ndarray`
